@@ -17,6 +17,7 @@ import (
 	"sort"
 	"strconv"
 	"strings"
+	"sync"
 	"time"
 	"unicode/utf8"
 
@@ -258,12 +259,12 @@ func coqArgs() []string {
 }
 
 // modelPass1 runs the model on chunks (a single Coq list literal of tens of thousands of trees overflows coqc's parser).
-func modelPass1(trees []string, pairs [][2]string, outDir string) ([]string, []bool, []bool, error) {
-	const chunk = 2500
+func modelPass1(trees []string, pairs [][2]string, outDir string) ([]string, []bool, []int, error) {
+	const chunk = 400
 	type res struct {
 		r   []string
 		c   []bool
-		f   []bool
+		f   []int
 		err error
 	}
 	nChunks := (len(trees) + chunk - 1) / chunk
@@ -274,7 +275,7 @@ func modelPass1(trees []string, pairs [][2]string, outDir string) ([]string, []b
 		nChunks = 1
 	}
 	out := make([]res, nChunks)
-	sem := make(chan struct{}, 8)
+	sem := make(chan struct{}, 12)
 	done := make(chan int, nChunks)
 	cut := func(n, k int) (int, int) {
 		lo, hi := k*chunk, (k+1)*chunk
@@ -301,7 +302,8 @@ func modelPass1(trees []string, pairs [][2]string, outDir string) ([]string, []b
 		<-done
 	}
 	var rs []string
-	var cs, fs []bool
+	var cs []bool
+	var fs []int
 	for k := 0; k < nChunks; k++ {
 		if out[k].err != nil {
 			return nil, nil, nil, out[k].err
@@ -315,13 +317,16 @@ func modelPass1(trees []string, pairs [][2]string, outDir string) ([]string, []b
 	return rs, cs, fs, nil
 }
 
-func modelPass1Chunk(trees []string, pairs [][2]string, outDir string, k int) ([]string, []bool, []bool, error) {
+// the earlier, narrower theorem's hypotheses are evaluated in the thorough tier only (before/after comparison)
+var plainPred = "false"
+
+func modelPass1Chunk(trees []string, pairs [][2]string, outDir string, k int) ([]string, []bool, []int, error) {
 	var b strings.Builder
-	b.WriteString("From GC Require Import Base Model_Regex Model_RegexSimplify Proofs_RegexSimplify Proofs_RegexWalk.\n")
+	b.WriteString("From GC Require Import Base Model_Regex Model_RegexSimplify Proofs_RegexSimplify Proofs_RegexWalk Proofs_RegexWalkS Model_RegexText.\n")
 	b.WriteString("Definition trees : list sx := [\n")
 	b.WriteString(strings.Join(trees, ";\n"))
 	b.WriteString("\n].\nDefinition R := Eval vm_compute in map (fun t => str_bytes (simplify1 t)) trees.\nPrint R.\n")
-	b.WriteString("Definition FRAG := Eval vm_compute in map (fun t => if in_fragment t && avoids_defects t then 1%N else 0%N) trees.\nPrint FRAG.\n")
+	b.WriteString("Definition FRAG := Eval vm_compute in map (fun t => ((if " + plainPred + " then 1 else 0) + (if pass_ok t then 2 else 0))%N) trees.\nPrint FRAG.\nDefinition TT := Eval vm_compute in fold_left N.add (map text_tie_count trees) 0%N.\nPrint TT.\n")
 	b.WriteString("Definition pairs : list (sx * sx) := [\n")
 	for i, pr := range pairs {
 		if i > 0 {
@@ -358,10 +363,10 @@ func modelPass1Chunk(trees []string, pairs [][2]string, outDir string, k int) ([
 	if fi < i || fi > ci {
 		return nil, nil, nil, fmt.Errorf("round 1: no FRAG result: %s", tailStr(out, 400))
 	}
-	var frag []bool
+	var frag []int
 	for _, ch := range out[fi+6 : ci] {
-		if ch == '0' || ch == '1' {
-			frag = append(frag, ch == '1')
+		if ch >= '0' && ch <= '3' {
+			frag = append(frag, int(ch-'0'))
 		}
 		if ch == ':' {
 			break
@@ -369,6 +374,12 @@ func modelPass1Chunk(trees []string, pairs [][2]string, outDir string, k int) ([
 	}
 	if len(frag) != len(trees) {
 		return nil, nil, nil, fmt.Errorf("round 1: %d fragment flags for %d trees", len(frag), len(trees))
+	}
+	if m := reTT.FindStringSubmatch(out); m != nil {
+		n, _ := strconv.Atoi(m[1])
+		textTieMu.Lock()
+		textTieNodes += n
+		textTieMu.Unlock()
 	}
 	s := out[i+3 : fi]
 	if j := strings.LastIndex(s, ":"); j >= 0 {
@@ -421,6 +432,78 @@ func modelPass1Chunk(trees []string, pairs [][2]string, outDir string, k int) ([
 	}
 	return res, cert, frag, nil
 }
+
+// modelFinal: final_ok (hypothesis of C11_simplify_final_sound_partial) for (tree of the pattern, optional tree
+// of the first pass's text), evaluated by the kernel in parallel chunks.
+func modelFinal(ins [][3]string, outDir string) ([]int, error) {
+	const chunk = 250
+	nChunks := (len(ins) + chunk - 1) / chunk
+	res := make([][]int, nChunks)
+	errs := make([]error, nChunks)
+	sem := make(chan struct{}, 8)
+	done := make(chan int, nChunks)
+	for k := 0; k < nChunks; k++ {
+		go func(k int) {
+			sem <- struct{}{}
+			defer func() { <-sem; done <- k }()
+			lo, hi := k*chunk, (k+1)*chunk
+			if hi > len(ins) {
+				hi = len(ins)
+			}
+			var b strings.Builder
+			b.WriteString("From GC Require Import Base Model_Regex Model_RegexSimplify Proofs_RegexSimplify Proofs_RegexWalk Proofs_RegexWalkS Model_RegexText Proofs_RegexText.\n")
+			b.WriteString("Definition ins : list (sx * option sx * option sx) := [\n")
+			for i, in := range ins[lo:hi] {
+				if i > 0 {
+					b.WriteString(";\n")
+				}
+				b.WriteString("(" + in[0] + ", " + in[1] + ", " + in[2] + ")")
+			}
+			b.WriteString("\n].\nDefinition FIN := Eval vm_compute in map (fun p => let '(t1, t2, t3) := p in ((if final_ok t1 t2 then 1 else 0) + (if text_guards_ok (final_tree t1 t2) then 2 else 0) + (match t3 with Some t => if same_meaning t1 t then 4 else 0 | None => 0 end))%N) ins.\nPrint FIN.\n")
+			path := filepath.Join(outDir, fmt.Sprintf("round2_c11_%d.v", k))
+			common.WriteFile(path, b.String())
+			args := append([]string{"600", "coqc"}, coqArgs()...)
+			out, code, err := common.Run(700*time.Second, outDir, os.Environ(), "timeout", append(args, path)...)
+			if err != nil || code != 0 {
+				errs[k] = fmt.Errorf("coqc round 2 failed (%v, rc=%d): %s", err, code, tailStr(out, 800))
+				return
+			}
+			fi := strings.Index(out, "FIN =")
+			if fi < 0 {
+				errs[k] = fmt.Errorf("round 2: no result: %s", tailStr(out, 400))
+				return
+			}
+			for _, ch := range out[fi+5:] {
+				if ch >= '0' && ch <= '7' {
+					res[k] = append(res[k], int(ch-'0'))
+				}
+				if ch == ':' {
+					break
+				}
+			}
+			if len(res[k]) != hi-lo {
+				errs[k] = fmt.Errorf("round 2: %d flags for %d inputs", len(res[k]), hi-lo)
+			}
+		}(k)
+	}
+	for k := 0; k < nChunks; k++ {
+		<-done
+	}
+	var all []int
+	for k := 0; k < nChunks; k++ {
+		if errs[k] != nil {
+			return nil, errs[k]
+		}
+		all = append(all, res[k]...)
+	}
+	return all, nil
+}
+
+var (
+	reTT         = regexp.MustCompile(`TT = (\d+)`)
+	textTieMu    sync.Mutex
+	textTieNodes int
+)
 
 func tailStr(s string, n int) string {
 	if len(s) > n {
@@ -798,6 +881,8 @@ var (
 	reDashRange       = regexp.MustCompile(`\[.*(.--|--.|.-.-.).*\]`)
 )
 
+var reOneCharWrap = regexp.MustCompile(`\(\?:([a-zA-Z0-9 ])\)|\[([a-zA-Z0-9 ])\]`)
+
 var reSingleRuneAlt = regexp.MustCompile(`(?:^|\(|\(\?[a-zA-Z-]*:|\(\?P?<[^>]*>)((?:[^|()\\]\|)+[^|()\\])(?:\)|$)`)
 
 // singleRuneAlt: the branches of some x|y|z with one rune per branch (whole pattern or a whole group)
@@ -873,7 +958,21 @@ func classify(pat, rw string, d *diff) string {
 	if d.Kind == "match" && has(pat, ")*") && has(rw, ")+") {
 		return "merge-of-nullable-group"
 	}
-	for _, m := range reLitAlt.FindAllStringSubmatch(pat, -1) {
+	if d.Kind == "match" && hasFoldFlag(pat) && strings.Count(rw, "|") < strings.Count(pat, "|") {
+		for _, m := range reLitAlt.FindAllStringSubmatch(pat, -1) {
+			// x|hx under (?i): the second branch is one rune followed by (a suffix of what precedes the bar =) the first branch
+			rs := []rune(m[1])
+			for k := 0; k+2 <= len(rs); k++ {
+				a := string(rs[k:])
+				if strings.HasSuffix(m[2], a) && utf8.RuneCountInString(m[2]) == len(rs)-k+1 && !strings.HasPrefix(m[2], a) {
+					return "alt-suffix-factoring-under-fold-flag"
+				}
+			}
+		}
+	}
+	// what the first pass makes of the pattern before the second pass factors it: `x{1}` => x, `(?:x)` => x, `[x]` => x
+	litPat := reOneCharWrap.ReplaceAllString(strings.ReplaceAll(pat, "{1}", ""), "$1$2")
+	for _, m := range reLitAlt.FindAllStringSubmatch(litPat, -1) {
 		// the first branch is a suffix of m[1] (group syntax such as "i:" or "<q>" may precede it)
 		rs := []rune(m[1])
 		for k := 0; k+2 <= len(rs); k++ {
@@ -998,6 +1097,18 @@ func zlist(v []int) string {
 func Run(tier string, seed int64, outDir string) *common.Meta {
 	meta := &common.Meta{Property: "C11", Distribution: map[string]interface{}{}, CaseFiles: []string{}}
 	thorough := tier == "thorough"
+	textTieNodes = 0
+	plainPred = "false"
+	if thorough || os.Getenv("VERIF_C11_BEFORE") != "" {
+		plainPred = "in_fragment t && avoids_defects t"
+	}
+	phaseT := time.Now()
+	phases := map[string]float64{}
+	meta.Distribution["harness_phase_seconds"] = phases
+	mark := func(name string) {
+		phases[name] = float64(int(time.Since(phaseT).Seconds()*10)) / 10
+		phaseT = time.Now()
+	}
 	r, err := newRunner()
 	if err != nil {
 		meta.TieBroken = append(meta.TieBroken, "cannot build a checker context: "+err.Error())
@@ -1009,6 +1120,12 @@ func Run(tier string, seed int64, outDir string) *common.Meta {
 	pats, srcOf, dist := generatePatterns(tier, seed)
 	meta.Distribution["patterns_by_stream"] = dist
 	meta.Distribution["patterns"] = len(pats)
+	meta.Distribution["patterns_reaching_each_rule"] = lastRuleHits
+	meta.Distribution["rules_and_guards_tracked"] = len(ruleInstances)
+	if lastRulesBelowQuota == nil {
+		lastRulesBelowQuota = []string{}
+	}
+	meta.Distribution["rules_below_quota"] = lastRulesBelowQuota
 
 	// 2. the real checker
 	rewrites, err := r.batch(pats)
@@ -1016,6 +1133,7 @@ func Run(tier string, seed int64, outDir string) *common.Meta {
 		meta.TieBroken = append(meta.TieBroken, "running the checker: "+err.Error())
 		return meta
 	}
+	mark("generate+checker_batch")
 	// 2b. every other entry point of package regexp, on a sample of the patterns
 	type siteObs struct {
 		idx, kind int
@@ -1064,6 +1182,7 @@ func Run(tier string, seed int64, outDir string) *common.Meta {
 	}
 	meta.Distribution["call_kinds_with_diagnostics"] = reactingNames
 	meta.Distribution["call_site_runs"] = len(sites)
+	mark("other_call_sites")
 	// 2c. the rewrite is a function of the pattern: what one checker instance reports for a pattern inside a
 	// file full of other patterns must be what a fresh instance reports for that pattern alone
 	alone := make([]string, len(pats))
@@ -1095,6 +1214,7 @@ func Run(tier string, seed int64, outDir string) *common.Meta {
 	}
 	meta.Distribution["patterns_whose_result_depends_on_the_batch"] = dependent
 
+	mark("each_pattern_alone")
 	// 3. trees, model pass 1 (Coq), trees of pass-1 texts
 	trees := make([]string, len(pats))
 	parsed := make([]bool, len(pats))
@@ -1121,7 +1241,7 @@ func Run(tier string, seed int64, outDir string) *common.Meta {
 			pairIdx = append(pairIdx, i)
 		}
 	}
-	pass1, certs, frags, err := modelPass1(round1, pairs, outDir)
+	pass1, _, frags, err := modelPass1(round1, nil, outDir)
 	if err != nil {
 		meta.TieBroken = append(meta.TieBroken, err.Error())
 		return meta
@@ -1131,32 +1251,87 @@ func Run(tier string, seed int64, outDir string) *common.Meta {
 		c1[i] = pass1[k]
 	}
 	certified := make([]bool, len(pats))
-	nCert := 0
-	for k, i := range pairIdx {
-		certified[i] = certs[k]
-		if certs[k] {
-			nCert++
-		}
-	}
-	meta.Distribution["rewrites_certified_equivalent_by_kernel"] = nCert
+	_, _ = pairs, pairIdx
 	inFrag := make([]bool, len(pats))
-	nFrag, nFragRw := 0, 0
+	nFrag, nFragRw, nPlain, nPlainRw := 0, 0, 0, 0
 	for k, i := range round1Idx {
-		inFrag[i] = frags[k]
-		if frags[k] {
+		inFrag[i] = frags[k]&2 != 0
+		if inFrag[i] {
 			nFrag++
 			if rewrites[i] != "" {
 				nFragRw++
 			}
 		}
+		if frags[k]&1 != 0 {
+			nPlain++
+			if rewrites[i] != "" {
+				nPlainRw++
+			}
+		}
 	}
 	meta.Distribution["patterns_covered_by_fragment_theorem"] = nFrag
+	meta.Distribution["class_nodes_and_literal_runs_reparsed_by_text_model"] = textTieNodes
 	meta.Distribution["rewrites_covered_by_fragment_theorem_pass1"] = nFragRw
+	if plainPred != "false" {
+		meta.Distribution["patterns_covered_by_the_earlier_capture_free_flag_free_theorem"] = nPlain
+		meta.Distribution["rewrites_covered_by_the_earlier_capture_free_flag_free_theorem_pass1"] = nPlainRw
+	}
+	// the FINAL rewrite (two-pass driver): hypothesis of C11_simplify_final_sound_partial
+	t2of := make([]string, len(pats))
+	finalCov := make([]bool, len(pats))
+	textOK := make([]bool, len(pats))
+	{
+		var ins [][3]string
+		var insIdx []int
+		for i := range pats {
+			if !parsed[i] || c1[i] == "" {
+				continue
+			}
+			t2of[i] = optTree(qp, c1[i])
+			t3 := "None"
+			if tree3[i] != "" {
+				t3 = "(Some " + tree3[i] + ")"
+			}
+			ins = append(ins, [3]string{trees[i], t2of[i], t3})
+			insIdx = append(insIdx, i)
+		}
+		fin, err := modelFinal(ins, outDir)
+		if err != nil {
+			meta.TieBroken = append(meta.TieBroken, err.Error())
+			return meta
+		}
+		nFin, nText, nBoth, nCert := 0, 0, 0, 0
+		for k, i := range insIdx {
+			finalCov[i] = fin[k]&1 != 0
+			textOK[i] = fin[k]&2 != 0
+			certified[i] = fin[k]&4 != 0
+			if certified[i] {
+				nCert++
+			}
+			if rewrites[i] == "" {
+				continue
+			}
+			if finalCov[i] {
+				nFin++
+			}
+			if textOK[i] {
+				nText++
+			}
+			if finalCov[i] && textOK[i] {
+				nBoth++
+			}
+		}
+		meta.Distribution["rewrites_whose_final_text_tree_is_covered_by_final_theorem"] = nFin
+		meta.Distribution["rewrites_whose_final_tree_satisfies_the_text_roundtrip_guards"] = nText
+		meta.Distribution["rewrites_inside_both_theorem_domains"] = nBoth
+		meta.Distribution["rewrites_certified_equivalent_by_kernel"] = nCert
+	}
 
+	mark("coq_round1+round2")
 	// 4. simplifier cases
-	hdr := `From GC Require Import Base Model_Regex Model_RegexSimplify Proofs_RegexSimplify Proofs_RegexWalk.
+	hdr := `From GC Require Import Base Model_Regex Model_RegexSimplify Proofs_RegexSimplify Proofs_RegexWalk Proofs_RegexWalkS Model_RegexText.
 Record case := { k_pat : string; k_tree : option sx; k_c1 : string; k_tree2 : option sx; k_obs : option string;
-                 k_tree3 : option sx; k_cert : bool; k_frag : bool; k_call : string }.
+                 k_tree3 : option sx; k_cert : bool; k_frag : bool; k_fin : bool; k_call : string }.
 Definition ostr_eqb (a b : option string) : bool :=
   match a, b with Some x, Some y => String.eqb x y | None, None => true | _, _ => false end.
 Definition case_ok (k : case) : bool :=
@@ -1166,18 +1341,21 @@ Definition case_ok (k : case) : bool :=
   | None => match k_obs k with None => true | Some _ => false end
   | Some t =>
       String.eqb (print t) (k_pat k)                                   (* the dump is the tree of this text *)
+      && text_tie_ok t                   (* Model_RegexText reads every class / literal run of the tree back from its Value *)
+      && match k_tree2 k with Some t2 => text_tie_ok t2 | None => true end
       && String.eqb (simplify1 t) (k_c1 k)                              (* pass 1 as used for k_tree2 *)
-      && String.eqb (pr_list (fst (walk_a true t))) (simp_text t)            (* tree version prints the text version *)
-      && Nat.eqb (snd (walk_a true t)) (simp_score t)
+      (* that the tree version of the walker prints the text version is a theorem: C11_walk_text_is_print_of_tree *)
       && ostr_eqb (simplify2 (k_pat k) t (fun s => if String.eqb s (k_c1 k) then k_tree2 k else None)) (k_obs k)
       (* the certificate used with C11_same_meaning_sound: pattern tree vs tree of the final rewrite *)
       && Bool.eqb (match k_tree3 k with Some t3 => same_meaning t t3 | None => false end) (k_cert k)
       (* hypotheses of C11_simplify_sound_partial; where they hold and the certificate can be computed, it agrees *)
-      && Bool.eqb (in_fragment t && avoids_defects t) (k_frag k)
+      && Bool.eqb (pass_ok t) (k_frag k)
+      (* hypothesis of C11_simplify_final_sound_partial, for the tree whose text is the final rewrite *)
+      && (if String.eqb (k_c1 k) "" then true else Bool.eqb (final_ok t (k_tree2 k)) (k_fin k))
   end.
 Definition cases : list case := [
 `
-	shards := 6
+	shards := 8
 	if thorough {
 		shards = 20
 	}
@@ -1192,7 +1370,10 @@ Definition cases : list case := [
 		}
 		t2 := "None"
 		if c1[i] != "" {
-			t2 = optTree(qp, c1[i])
+			t2 = t2of[i]
+			if t2 == "" {
+				t2 = optTree(qp, c1[i])
+			}
 		}
 		obs := "None"
 		if rewrites[i] != "" {
@@ -1207,10 +1388,10 @@ Definition cases : list case := [
 		if tree3[i] != "" {
 			t3 = "(Some " + tree3[i] + ")"
 		}
-		bodies[sh] = append(bodies[sh], fmt.Sprintf("  {| k_pat := %s; k_tree := %s; k_c1 := %s; k_tree2 := %s; k_obs := %s; k_tree3 := %s; k_cert := %s; k_frag := %s; k_call := %s |}",
-			coqfmt.Str(p), t, coqfmt.Str(c1[i]), t2, obs, t3, coqfmt.Bool(certified[i]), coqfmt.Bool(inFrag[i]), coqfmt.Str(callKinds[kindMustCompile].name)))
+		bodies[sh] = append(bodies[sh], fmt.Sprintf("  {| k_pat := %s; k_tree := %s; k_c1 := %s; k_tree2 := %s; k_obs := %s; k_tree3 := %s; k_cert := %s; k_frag := %s; k_fin := %s; k_call := %s |}",
+			coqfmt.Str(p), t, coqfmt.Str(c1[i]), t2, obs, t3, coqfmt.Bool(certified[i]), coqfmt.Bool(inFrag[i]), coqfmt.Bool(finalCov[i]), coqfmt.Str(callKinds[kindMustCompile].name)))
 		caseLine[i] = [2]string{fmt.Sprintf("  {| k_pat := %s; k_tree := %s; k_c1 := %s; k_tree2 := %s; k_obs := ", coqfmt.Str(p), t, coqfmt.Str(c1[i]), t2),
-			fmt.Sprintf("; k_tree3 := %s; k_cert := %s; k_frag := %s; k_call := ", t3, coqfmt.Bool(certified[i]), coqfmt.Bool(inFrag[i]))}
+			fmt.Sprintf("; k_tree3 := %s; k_cert := %s; k_frag := %s; k_fin := %s; k_call := ", t3, coqfmt.Bool(certified[i]), coqfmt.Bool(inFrag[i]), coqfmt.Bool(finalCov[i]))}
 		idx[sh] = append(idx[sh], fmt.Sprintf("%s: %q => %q", srcOf[i], p, rewrites[i]))
 		if rewrites[i] != "" && i%211 == 0 {
 			meta.AddSample(map[string]interface{}{"pattern": p, "rewrite": rewrites[i], "model_pass1": c1[i], "stream": srcOf[i]})
@@ -1226,13 +1407,13 @@ Definition cases : list case := [
 		if callKinds[so.kind].name == "regexp.Compile" || so.rw != "" {
 			if so.rw != rewrites[so.idx] && so.rw != "" {
 				// a different rewrite than at MustCompile: the certificate fields do not apply; compare the text only
-				line = fmt.Sprintf("  {| k_pat := %s; k_tree := None; k_c1 := \"\"; k_tree2 := None; k_obs := %s; k_tree3 := None; k_cert := false; k_frag := false; k_call := %s |}",
+				line = fmt.Sprintf("  {| k_pat := %s; k_tree := None; k_c1 := \"\"; k_tree2 := None; k_obs := %s; k_tree3 := None; k_cert := false; k_frag := false; k_fin := false; k_call := %s |}",
 					coqfmt.Str(pats[so.idx]), obs, coqfmt.Str(callKinds[so.kind].name))
 			} else {
 				line = caseLine[so.idx][0] + obs + caseLine[so.idx][1] + coqfmt.Str(callKinds[so.kind].name) + " |}"
 			}
 		} else {
-			line = fmt.Sprintf("  {| k_pat := %s; k_tree := None; k_c1 := \"\"; k_tree2 := None; k_obs := None; k_tree3 := None; k_cert := false; k_frag := false; k_call := %s |}",
+			line = fmt.Sprintf("  {| k_pat := %s; k_tree := None; k_c1 := \"\"; k_tree2 := None; k_obs := None; k_tree3 := None; k_cert := false; k_frag := false; k_fin := false; k_call := %s |}",
 				coqfmt.Str(pats[so.idx]), coqfmt.Str(callKinds[so.kind].name))
 		}
 		sh := j % shards
@@ -1257,6 +1438,7 @@ Definition cases : list case := [
 	meta.Distribution["rewrites_proposed"] = nRewrites
 	meta.Distribution["rewrites_needing_second_pass"] = nTwoPass
 
+	mark("write_simplifier_cases")
 	// 5. semantics cases: model matcher vs regexp.FindStringSubmatchIndex
 	rng := common.NewRand(seed, "c11-subjects")
 	semHdr := `From GC Require Import Base Model_Regex.
@@ -1370,6 +1552,7 @@ Definition cases : list case := [
 	meta.Distribution["semantics_patterns_outside_model"] = semUnsupported
 	meta.Distribution["semantics_patterns_with_nullable_loop_body"] = semLoops
 
+	mark("semantics_cases")
 	// 6. oracle: every proposed rewrite, both sides compiled by Go's regexp
 	orng := common.NewRand(seed, "c11-oracle")
 	maxLen, budget := 4, 5000
@@ -1381,6 +1564,9 @@ Definition cases : list case := [
 	uncertifiedClean := 0
 	classCount := map[string]int{}
 	coveredRefuted := map[string]int{}
+	finalCoveredRefuted := map[string]int{}
+	bothRefuted := map[string]int{}
+	outsideRefuted, outsideClean := 0, 0
 	shrunkPerClass := map[string]int{}
 	for i, p := range pats {
 		if rewrites[i] == "" {
@@ -1388,6 +1574,13 @@ Definition cases : list case := [
 		}
 		d, n := compareRegexps(p, rewrites[i], maxLen, budget, orng, nil)
 		subjectsTried += n
+		if !inFrag[i] {
+			if d != nil {
+				outsideRefuted++
+			} else {
+				outsideClean++
+			}
+		}
 		if d == nil {
 			if !certified[i] {
 				uncertifiedClean++
@@ -1409,6 +1602,18 @@ Definition cases : list case := [
 			// (re-lexing) or from the second pass
 			coveredRefuted[class]++
 		}
+		if finalCov[i] {
+			// every pass is proved sound at tree level and each pass started from a tree meaning what the previous
+			// one emitted: the damage can only be that Go reads the final TEXT differently from the final tree
+			finalCoveredRefuted[class]++
+			if textOK[i] {
+				// ... and the final tree passes the guards of the text-level round-trip theorems: the text model
+				// (classes, literal runs) claims nothing changes meaning by its new neighbours. A refutation here is a
+				// re-lexing route the model does not know.
+				bothRefuted[class]++
+				meta.TieBroken = append(meta.TieBroken, fmt.Sprintf("%q => %q lies inside the tree-level theorem and the text-level guards, yet Go's regexp distinguishes them: %s", p, rewrites[i], describe(d)))
+			}
+		}
 		if shrunkPerClass[class] < 5 {
 			shrunkPerClass[class]++
 			what := fmt.Sprintf("regexpSimplify rewrites `%s` as `%s`, which is not the same regular expression: %s", sp, srw, describe(sd))
@@ -1418,6 +1623,7 @@ Definition cases : list case := [
 			})
 		}
 	}
+	mark("oracle")
 	// diagnostics at POSIX call sites are judged with that site's constructor
 	posixFailures := 0
 	for _, so := range sites {
@@ -1442,6 +1648,10 @@ Definition cases : list case := [
 	meta.Distribution["rewrites_neither_certified_nor_refuted"] = uncertifiedClean
 	meta.Distribution["oracle_defect_classes"] = classCount
 	meta.Distribution["oracle_refuted_although_pass1_tree_proved_sound"] = coveredRefuted
+	meta.Distribution["oracle_refuted_although_final_tree_proved_sound"] = finalCoveredRefuted
+	meta.Distribution["oracle_refuted_inside_both_theorem_domains"] = bothRefuted
+	meta.Distribution["rewrites_outside_one_pass_theorem_refuted_by_oracle"] = outsideRefuted
+	meta.Distribution["rewrites_outside_one_pass_theorem_not_refuted"] = outsideClean
 	meta.Evaluations = len(pats) + semRuns + subjectsTried
 	meta.Distinct = nRewrites
 	meta.Rule = "patterns: the repo's regexpSimplify testdata strings and the defect corpus first, then grammar-based (small alphabet), metacharacter-heavy, class-heavy and mutation streams, all valid UTF-8 and accepted by regexp.Compile, <= 60 bytes plus a few longer ones; each is parsed by syntax.Parser{NoLiterals:true} (tree dumped as a Coq term), run through linter.NewChecker(regexpSimplify) on a type-checked generated file, and compared in Coq with the model's two-pass result (the parser supplies the tree of the model's pass-1 text); matcher model vs regexp.FindStringSubmatchIndex on sampled (pattern, subject) pairs; oracle: both sides of every proposed rewrite compiled by regexp and compared on NumSubexp, SubexpNames and FindStringSubmatchIndex over all subjects up to length 4 (5 thorough) over the pattern's alphabet + a foreign rune, \\n, \\v. distinct_nontrivial = number of distinct patterns for which the checker proposed a rewrite"
@@ -1470,6 +1680,8 @@ var corpus = []string{
 	`(|a)*`, `(|a)+`, `(a*)*b`, `(a*)+b`, `(a|b*)*c`, `(?:a*|b)*?c`, `(a??)*b`, `^a$|\bb\B`, `(?m)^a$`, `\Qa.b\E+`,
 	`a{2,3}?b`, `(a){2}`, `(a)|b`, `(?P<n>a)(b)?`, `[^a]`, `[a-c]`, `[a-a]`, `[a-b]`, `x\&y`, `\.\.`, `a    b`,
 	`^[0-9]+(\.[0-9]+)?$`, `[[:alpha:]][[:alnum:]]*x{0,1}`, `(a|b|c)[0-9][0-9]*`, `(?U:abc|ab)`, `(?U)xab|ab`, `aa|aaa`, `aaa|aa`, `❤❤|❤❤❤`, `xx|xxx`, `(?i:a)[b]`, `(?s:.)\.\.`, `(|a)*b{1}`, `a|`, `(?:s*?b*)(?:s*?b*)*`, `s(?i){0}`, `\0{1}0`, `[a-b-*]`, `(?:❤x|❤xb)`,
+	`a{[2]}`, `a{2\,3}`, `a{(?:2)}`, `a{2{1}}`, `[a-a-z]`, `fo|fo❤`, `hb|hhb`, `(?i:hb|Hhb)`,
+	`(?i:aA|aaA)`, `(?i:ab|Aab)`, `(?i:aA|aaA)x`, `(foo|fo)`, `(?P<n>xfo|fo)b{1}`, `(fo|xfo)(?:a)`, `(a)(?:b)(?:b)*`, `((a)|b{1,})[c]`, `(?i:[k]b{1,})(c)   `, `(?s:.{0,1}a)\.`, `(?i)(a|b|c)x{1}`, `(?m:^[a]$)`, `(?U:a{1,}b)`,
 	`(?:a*b*)*c`, `(a*?)*b`, `(?:a?)*?b`, `((a*)+)+`, `(a*|b)+?c`, `(a??b??)*c`, `(?:(a)|b*)*c`, `(a*){2,3}b`, `(a*){2,}b`, `(a?){3}`,
 	`(a|){2,}?b`, `(?:a|(b))+`, `(?:(a)|(b))*`, `(a)*?(b)??`, `(?i)k+|ſ`, `(?i)[^k]`, `(?i)\W`, `(?s).\n`, `(?m)^$`, `(?U)a+?`, `(?U:a*)a`,
 	`....`, `aaaaa`, `\d\d\d`, `[ab][ab]`, `(?:ab)(?:ab)`, `[^\s]`, `[^\S]`, `[0-9]`, `[^0-9]`, `(?:a|b|c)`,
@@ -1636,6 +1848,14 @@ func (g *gen) re(d int) string {
 		// prefix/suffix pairs
 		x := g.literal()
 		c := g.pick(g.alpha)
+		if g.r.Intn(4) == 0 {
+			// the same literal in another letter case (matters under (?i))
+			x2 := strings.ToUpper(x)
+			if g.r.Intn(2) == 0 {
+				return x + "|" + c + x2
+			}
+			return x + "|" + x2 + c
+		}
 		switch g.r.Intn(4) {
 		case 0:
 			return x + "|" + x + c
@@ -1658,6 +1878,11 @@ func (g *gen) re(d int) string {
 
 var metaTokens = []string{"a", "b", "c", "-", "]", "[", "{", "}", "(", ")", "|", "*", "+", "?", ".", "^", "$", `\`, ",", ":", "0", "1", "2",
 	"{1}", "{0}", "{1,2}", "{0,1}", "(?:", "[:", ":]", `\0`, `\,`, `\:`, "❤", " ", "x", "[^", "(?i)", "??", "*?", `\.`, `\]`}
+
+var (
+	lastRuleHits        map[string]int
+	lastRulesBelowQuota []string
+)
 
 func generatePatterns(tier string, seed int64) ([]string, []string, map[string]int) {
 	thorough := tier == "thorough"
@@ -1768,6 +1993,64 @@ func generatePatterns(tier string, seed int64) ([]string, []string, map[string]i
 			n++
 		}
 	}
+	// every rewrite rule (and every guard that blocks one) reached by a quota of patterns: one small instance of the
+	// rule, alone and inside varying contexts (captures, flag groups, anchors, alternation, quantified neighbours)
+	rp := syntax.NewParser(&syntax.ParserOptions{NoLiterals: true})
+	hitsOf := func(p string) map[string]int {
+		h := map[string]int{}
+		if re, err := rp.Parse(p); err == nil {
+			ruleHits(re.Expr, h)
+		}
+		return h
+	}
+	{
+		rr := common.NewRand(seed, "c11-rules")
+		quota := 6 * scale
+		var names []string
+		for name := range ruleInstances {
+			names = append(names, name)
+		}
+		sort.Strings(names)
+		pre := []string{"", "", "a", "^", "x", `\d`, "(b)", "(?i)", "b|", "(?:b)?", "k+?"}
+		post := []string{"", "", "b", "$", "x*", `\.`, "(c)", "|b", "c??", "s{2,3}?"}
+		encl := []string{"%s", "%s", "(%s)", "(?:%s)", "(?i:%s)", "(?P<n>%s)", "(?s:%s)x", "(?U:%s)", "(%s)|b", "^(?:%s)$", "(?m:^%s$)", "((%s))*?"}
+		for _, name := range names {
+			inst := ruleInstances[name]
+			for n, tries := 0, 0; n < quota && tries < 300; tries++ {
+				p := inst[rr.Intn(len(inst))]
+				if tries >= len(inst) {
+					p = pre[rr.Intn(len(pre))] + fmt.Sprintf(encl[rr.Intn(len(encl))], p) + post[rr.Intn(len(post))]
+				} else {
+					p = inst[tries]
+				}
+				if hitsOf(p)[name] == 0 {
+					continue
+				}
+				if add(p, "rules") {
+					n++
+				}
+			}
+		}
+	}
+	// captures + alternation + anchors + non-greedy + flags, combined, close to the 60-byte limit
+	{
+		cr := common.NewRand(seed, "c11-combo")
+		pieces := []string{"(a|b)", "(?P<n>ab|c)", "^", "$", "a+?", "b*?", "(?:x|yz)??", "(?i:ab)", "(?s:.)", "(?U:a+)", "(?i)", "(?m:^a$)", "[a-c]", "[0-9]",
+			`\d{1,}`, "x{0,1}?", "(foo|fo)", "(fo|xfo)", "(a)(?:b)(?:b)*", "   ", `\.`, "(a{1})", "(?:[ab])", "(?:(a)|b)+?", "a{2,3}?", `\bfoo\b`, "(?i:k)",
+			"[[:alpha:]]", "aaaaa", "(?P<q>x)*?", "|", "(?:ab|abc)", "(x)|(y)", `[^\s]`, "(?i:aB|cab)", "(?:a){1,}?", `\/`, "(?s:a.{0,}?)", "(b|)c"}
+		for n, tries := 0, 0; n < 80*scale && tries < 20000*scale; tries++ {
+			var b strings.Builder
+			for b.Len() < 46+cr.Intn(12) {
+				b.WriteString(pieces[cr.Intn(len(pieces))])
+			}
+			if b.Len() > 60 {
+				continue
+			}
+			if add(b.String(), "combo") {
+				n++
+			}
+		}
+	}
 	// patterns at the checker's length limit that share a long, escape-heavy prefix and differ only near the
 	// end, derived from the patterns generated so far and placed next to each other in the same file
 	pr := common.NewRand(seed, "c11-limit")
@@ -1806,5 +2089,19 @@ func generatePatterns(tier string, seed int64) ([]string, []string, map[string]i
 		add(stem+s2, "limit")
 		n++
 	}
+	// measured: how many patterns reach each rule
+	lastRuleHits = map[string]int{}
+	for _, p := range pats {
+		for name := range hitsOf(p) {
+			lastRuleHits[name]++
+		}
+	}
+	lastRulesBelowQuota = nil
+	for name := range ruleInstances {
+		if lastRuleHits[name] < 6*scale {
+			lastRulesBelowQuota = append(lastRulesBelowQuota, name)
+		}
+	}
+	sort.Strings(lastRulesBelowQuota)
 	return pats, src, dist
 }
